@@ -303,6 +303,9 @@ func (x *Exec) intrinsic(fn *ssa.Function, args []Value) (Value, bool) {
 	if fn.Name() == "init" && !isGrol(fn.Pkg) && !initAllow[path] {
 		return nil, true
 	}
+	if isGrol(fn.Pkg) && fn.Name() == "vFresh" {
+		return x.freshRun(fn.Pkg, concStr(args[0]), args[1].(Slice)), true
+	}
 	if isGrol(fn.Pkg) && len(fn.Name()) > 1 && fn.Name()[0] == 'v' {
 		if r, ok := x.harnessAPI(fn.Name(), args); ok {
 			return r, true
@@ -823,7 +826,7 @@ func (x *Exec) fromNative(o reflect.Value, t types.Type) Value {
 // Eisel-Lemire code symbolically is out of reach, so the result is an uninterpreted float of the bytes
 // (sound for no-panic and differential properties; never equal to a particular value).
 func (x *Exec) parseFloatSym(s Str) Value {
-	x.stubsHit["strconv.ParseFloat (symbolic input: uninterpreted function of the bytes, so equal texts parse alike)"] = true
+	x.stubsHit["strconv.ParseFloat (symbolic input: syntax decided by strconv.special/readFloat executed from their SSA; the value is an uninterpreted function of the bytes, so equal texts parse alike; range errors only considered for hex floats and decimal exponents >= 280)"] = true
 	ts := make([]*Term, 0, s.Len())
 	for _, b := range strBytes(s) {
 		if b.Atom != 0 {
@@ -831,10 +834,49 @@ func (x *Exec) parseFloatSym(s Str) Value {
 		}
 		ts = append(ts, x.term(b))
 	}
-	ok := x.tt.UF(fmt.Sprintf("pf_ok%d", len(ts)), 0, ts...)
-	if x.branch(ok) {
-		v := x.tt.UF(fmt.Sprintf("pf_bits%d", len(ts)), 64, ts...)
-		return ret2(Float{S: x.tt.FFromBits(v)}, Iface{})
+	syntaxErr := func() Value {
+		return ret2(Float{}, x.mkError("strconv.ParseFloat: parsing: invalid syntax"))
 	}
-	return ret2(Float{}, x.mkError("strconv.ParseFloat: parsing: invalid syntax"))
+	sp := x.prog.ImportedPackage("strconv")
+	if sp == nil || sp.Func("readFloat") == nil || sp.Func("special") == nil {
+		// no SSA for strconv: fall back to a free verdict
+		ok := x.tt.UF(fmt.Sprintf("pf_ok%d", len(ts)), 0, ts...)
+		if x.branch(ok) {
+			v := x.tt.UF(fmt.Sprintf("pf_bits%d", len(ts)), 64, ts...)
+			return ret2(Float{S: x.tt.FFromBits(v)}, Iface{})
+		}
+		return syntaxErr()
+	}
+	n := s.Len()
+	// "inf", "infinity", "nan" (any case, optional sign)
+	r := x.callSSA(sp.Func("special"), []Value{s}, nil).(Tuple)
+	truth := func(b Value) bool { return x.branch(x.bterm(b.(Bool))) }
+	lenIs := func(v Value) bool {
+		t := x.term(v.(Int))
+		return x.branch(x.tt.Cmp(OpEq, t, x.tt.Const(t.W, uint64(n))))
+	}
+	if truth(r[2]) {
+		if lenIs(r[1]) {
+			return ret2(r[0], Iface{})
+		}
+		return syntaxErr()
+	}
+	rf := x.callSSA(sp.Func("readFloat"), []Value{s}, nil).(Tuple)
+	if !truth(rf[6]) || !lenIs(rf[5]) {
+		return syntaxErr()
+	}
+	exp := rf[1].(Int)
+	mayOverflow := truth(rf[4])
+	if !mayOverflow {
+		e := x.term(exp)
+		mayOverflow = !x.branch(x.tt.Cmp(OpSlt, e, x.tt.Const(e.W, 280)))
+	}
+	if mayOverflow {
+		rng := x.tt.UF(fmt.Sprintf("pf_range%d", len(ts)), 0, ts...)
+		if x.branch(rng) {
+			return ret2(Float{C: math.Inf(1)}, x.mkError("strconv.ParseFloat: parsing: value out of range"))
+		}
+	}
+	v := x.tt.UF(fmt.Sprintf("pf_bits%d", len(ts)), 64, ts...)
+	return ret2(Float{S: x.tt.FFromBits(v)}, Iface{})
 }
